@@ -687,6 +687,14 @@ class AsyncFIXConnection:
                 self.log.warning(
                     "Getting SEQUENCERESET(GapFillFlag=Y) while not filling gaps"
                 )
+            if (
+                int(seqreset_msg[FTag.MsgSeqNum]) != self._session.next_num_in
+                or int(seqreset_msg[FTag.NewSeqNo]) <= self._session.next_num_in
+            ):
+                # A gap fill is honoured only when its own MsgSeqNum is the expected
+                #   one and only forwards: above it the gap has to be requested
+                #   first, below it is a duplicate
+                return False
         else:
             self.log.info(f"SequenceReset received from peer: {seqreset_msg}")
 
@@ -700,6 +708,7 @@ class AsyncFIXConnection:
         self._journaler.set_seq_num(
             self._session, next_num_in=int(seqreset_msg[FTag.NewSeqNo])
         )
+        return True
 
     async def _finalize_message(self, msg: FIXMessage, raw_msg: bytes):
         """Final message processing (MsgSeqNum checks / journaling).
@@ -788,6 +797,7 @@ class AsyncFIXConnection:
             )
             return
         is_valid_msg_num = False
+        seqreset_applied = False
         try:
             assert self._connection_state >= ConnectionState.NETWORK_CONN_ESTABLISHED
 
@@ -805,7 +815,7 @@ class AsyncFIXConnection:
             if msg.msg_type == FMsg.LOGON:
                 await self._process_logon(msg)
             elif msg.msg_type == FMsg.SEQUENCERESET:
-                await self._process_seqreset(msg)
+                seqreset_applied = await self._process_seqreset(msg)
             elif msg.msg_type == FMsg.LOGOUT:
                 await self._process_logout(msg)
 
@@ -815,6 +825,13 @@ class AsyncFIXConnection:
 
             msg_seq_num = int(msg[FTag.MsgSeqNum])
             is_valid_msg_num = await self._check_seqnum_gaps(msg_seq_num)
+            if msg.msg_type == FMsg.SEQUENCERESET:
+                if not seqreset_applied:
+                    # Gap fill above / below the expected MsgSeqNum was not honoured
+                    is_valid_msg_num = False
+            elif msg_seq_num < self._session.next_num_in:
+                # Already processed (e.g. arrives again while a resend is awaited)
+                is_valid_msg_num = False
 
             if msg.msg_type == FMsg.RESENDREQUEST:
                 await self._process_resend(msg)
